@@ -58,6 +58,31 @@ GET_LENGTH = [
     ('ensures', '[C05] the cursor stays within the input', 'vx_src_pos <= vx_src_n'),
 ]
 
+# ---- begin_array / begin_object of the parser: depth guard, max_items guard (U-UB-ITEMS, U-UB-DEPTH)
+PAL = {'ec': '(*ec_p)', 'more_': '(self->more_)', 'nesting_depth_': '(self->nesting_depth_)', 'max_nesting_depth_': '(self->max_nesting_depth_)',
+       'max_items_': '(self->max_items_)', 'cursor_mode_': '(self->cursor_mode_)'}
+BEGIN_RULES = COMMON + [
+    (r'auto c = source_\.peek\(\);', 'struct vx_peek_result c = vx_source_peek();', 1),
+    (r'c = source_\.peek\(\);', 'c = vx_source_peek();', 1, 3),
+    (r'source_\.ignore\(1\);', 'vx_source_ignore(1);', 2, 4),
+    (r'source_\.read\(', 'vx_source_read(', 1, 3),
+    (r'get_length\(ec\)', 'get_length((struct ubjson_parser*)self, ec_p)', 2),
+    (r'state_stack_\.emplace_back\(parse_mode::(\w+),\s*(\w+)(?:,\s*b)?\);', r'VX_STACK_EMPLACE(parse_mode_\1, \2);', 3),
+    (r'visitor\.begin_(array|object)\(length, semantic_tag::none, \*this, ec\);', r'vx_ev_begin(1, length);', 2),
+    (r'visitor\.begin_(array|object)\(semantic_tag::none, \*this, ec\);', r'vx_ev_begin(0, 0);', 1),
+]
+BEGIN_CONTRACT = [
+    ('requires', 'vx_src_pos <= vx_src_n && vx_src_n <= VX_SRC_CAP - 9 && *ec_p == 0 && self->more_ && vx_pushes == 0 && vx_events == 0'),
+    ('requires', 'self->nesting_depth_ >= 0 && self->nesting_depth_ <= self->max_nesting_depth_ && self->max_nesting_depth_ < INT_MAX'),
+    ('assigns', 'vx_src_pos, *ec_p, self->more_, self->nesting_depth_, vx_pushes, vx_depth, vx_top, vx_events, vx_ev_counted, vx_ev_len, vx_dec_ok'),
+    ('ensures', '[C10] a container opened at depth == max_nesting_depth is refused before anything is read, pushed or announced',
+     '__CPROVER_old(self->nesting_depth_) == self->max_nesting_depth_ ==> (*ec_p == ubjson_errc_max_nesting_depth_exceeded && vx_pushes == 0 && vx_events == 0 && vx_src_pos == __CPROVER_old(vx_src_pos))'),
+    ('ensures', '[C10] a container announcing more than max_items elements is never pushed and never announced to the visitor (refusal precedes any reservation)',
+     '(vx_pushes == 1 ==> vx_top.length_ <= self->max_items_) && ((vx_events == 1 && vx_ev_counted) ==> vx_ev_len <= self->max_items_) && vx_pushes <= 1 && vx_events <= 1'),
+    ('ensures', '[C10] max_items_exceeded is reported without push or visitor event', '*ec_p == ubjson_errc_max_items_exceeded ==> (vx_pushes == 0 && vx_events == 0 && !self->more_)'),
+    ('ensures', '[C07] every error stops the parser without announcing a container', '*ec_p != 0 ==> (vx_events == 0 && vx_pushes == 0 && !self->more_)'),
+    ('ensures', '[C07] success opens exactly one container below the depth limit', '*ec_p == 0 ==> (vx_pushes == 1 && vx_events == 1 && self->nesting_depth_ == __CPROVER_old(self->nesting_depth_) + 1 && vx_top.length_ == vx_ev_len)'),
+]
 SPECS = [
     EnumSpec('ubjson_errc', 'include/jsoncons_ext/ubjson/ubjson_error.hpp'),
     CopySpec('ubjson_types', TY, r'JSONCONS_INLINE_CONSTEXPR uint8_t null_type', r"count_marker = '#';", include_end=True,
@@ -73,9 +98,21 @@ SPECS = [
              csig='size_t get_length(struct ubjson_parser* self, int* ec_p)', contract=GET_LENGTH, aliases={'ec': '(*ec_p)', 'more_': '(self->more_)'},
              rules=COMMON + [(r'source_\.read\(', 'vx_source_read(', 5, 8),
                              (r'binary::big_to_native<int(8|16|32|64)_t>\(', r'(int\1_t)big_to_native_u\1(', 4)]),
+    EnumSpec('parse_mode', P),
+    FuncSpec('begin_array', P, r'void begin_array\(json_visitor& visitor, std::error_code& ec\)', count=1,
+             csig='void begin_array(struct ubjson_parser2* self, int* ec_p)', contract=BEGIN_CONTRACT, aliases=PAL, rules=BEGIN_RULES),
+    FuncSpec('begin_object', P, r'void begin_object\(json_visitor& visitor, std::error_code& ec\)', count=1,
+             csig='void begin_object(struct ubjson_parser2* self, int* ec_p)', contract=BEGIN_CONTRACT, aliases=PAL, rules=BEGIN_RULES),
 ]
 GROUPS = {'binary': cs.binary_group(widths=(8, 16, 32, 64))}
+SITE_CHECKS = [
+    {'file': P, 'pattern': r'if \(\+\+state_stack_\.back\(\)\.index > max_items_\)\s*\{\s*ec = ubjson_errc::max_items_exceeded;', 'count': 2, 'props': ['C10'],
+     'what': 'the two indefinite-length iteration sites (array, object) count elements against max_items before reading the next one'},
+    {'file': P, 'pattern': r'state_stack_\.emplace_back\(', 'count': 6, 'props': ['C10'], 'what': 'containers are pushed only inside begin_array / begin_object (three pushes each)'},
+]
 HARNESSES = [
+    Harness('begin_array', 'h_begin_array', enforce='begin_array', replace=['get_length'], method='LF', unwind=10, props=['C10', 'C07']),
+    Harness('begin_object', 'h_begin_object', enforce='begin_object', replace=['get_length'], method='LF', unwind=10, props=['C10', 'C07']),
     Harness('visit_int64', 'h_visit_int64', enforce='visit_int64', method='LF', unwind=10, props=['C06', 'C08']),
     Harness('visit_uint64', 'h_visit_uint64', enforce='visit_uint64', method='LF', unwind=10, props=['C06', 'C08']),
     Harness('put_length', 'h_put_length', enforce='put_length', method='LF', unwind=10, props=['C06', 'C08']),
